@@ -228,7 +228,8 @@ def cmd_replay(a) -> int:
 
 
 def spawn_workers(
-    prop, engine, tier, seed, indices, n_workers, wall, scratch, tag, hashseed=None, keep_events=False, events_for=()
+    prop, engine, tier, seed, indices, n_workers, wall, scratch, tag, hashseed=None, keep_events=False, events_for=(),
+    extra_env=None,
 ):
     procs = []
     n_workers = max(1, min(n_workers, len(indices)))
@@ -252,7 +253,10 @@ def spawn_workers(
             cmd.append("--keep-events")
         if events_for:
             cmd += ["--events-for", ",".join(map(str, events_for))]
-        env = core.fixed_env({"PYTHONHASHSEED": str(hashseed)} if hashseed is not None else None)
+        extra = dict(extra_env or {})
+        if hashseed is not None:
+            extra["PYTHONHASHSEED"] = str(hashseed)
+        env = core.fixed_env(extra)
         p = subprocess.Popen(cmd, env=env, stdout=err, stderr=err, cwd=VERIF)
         procs.append((p, out, err))
     return procs
@@ -297,7 +301,10 @@ def run_engine(prop, engine, tier, seed, runs, n_workers, wall, scratch):
     # determinism probe: same seeds, different worker count, different hash seed, fresh interpreters
     det_idx = indices[: min(2, n_fixed)] + indices[n_fixed : n_fixed + DETERMINISM_SAMPLE]
     main = spawn_workers(prop, engine, tier, seed, indices, n_workers, wall, scratch, "main", events_for=det_idx)
-    det = spawn_workers(prop, engine, tier, seed, det_idx, 2, wall, scratch, "det", hashseed=12345, keep_events=True)
+    det = spawn_workers(
+        prop, engine, tier, seed, det_idx, 2, wall, scratch, "det", hashseed=12345, keep_events=True,
+        extra_env=getattr(eng, "DET_PROBE_ENV", None),
+    )
     lines, errors = collect(main, wall)
     dlines, derrors = collect(det, wall)
     wall_s = time.time() - t0
